@@ -158,7 +158,7 @@ MIRI_DIR = os.path.join(VERIF, "harness-miri")
 MIRIFLAGS = "-Zmiri-disable-isolation -Zmiri-permissive-provenance -Zmiri-disable-stacked-borrows"
 
 
-def miri(rep, jobs, timeout):
+def miri(rep, jobs, timeout, sig_prefix=""):
     """jobs: list of argv lists for the `rlm` driver (e.g. ["ops", seed, n, shard]).  Runs them in
     parallel under `cargo +nightly miri run`; an `error: Undefined Behavior` whose backtrace has
     risinglight frames is a violation; `unsupported operation` is inconclusive.  The aliasing
@@ -226,7 +226,8 @@ def miri(rep, jobs, timeout):
                 tot["combos"].update((d.get("combos") or d.get("pool_sizes") or {}).keys())
                 for v in d.get("violations", []):
                     # behavioural oracle firing under the interpreter (same oracle as the native run)
-                    rep.add_violation(Violation(v.get("signature", "?"), "under miri: " + str(v.get("what", ""))[:200],
+                    # (same signature as the native run gives it, so that an open finding is the same finding under the interpreter)
+                    rep.add_violation(Violation(sig_prefix + v.get("signature", "?"), "under miri: " + str(v.get("what", ""))[:200],
                                                 dict(overlay="miri", argv=argv, case=v.get("case"))))
             except Exception:
                 pass
